@@ -1066,6 +1066,10 @@ func init() {
 				}
 				if _, ok := heads["in-package"]; ok {
 					obs = append(obs, mkOb(c, "PKGTRACK.export-with-package", u, "handles export", exp, Proved, "the same function recognises in-package", false))
+				} else if drv, _, _, _, ok := c.callbackDriver(u, exp); ok && c.comparesWithString(drv, "in-package") {
+					// the export test sits in a callback driven by an iterator over the file's forms which itself
+					// tracks in-package and hands the current package to the callback
+					obs = append(obs, mkOb(c, "PKGTRACK.export-with-package", u, "handles export", exp, Proved, "the iterator that drives this callback ("+drv.Name()+") recognises in-package", true))
 				} else {
 					obs = append(obs, mkOb(c, "PKGTRACK.export-with-package", u, "handles export", exp, Violated, "this function recognises (export ...) forms but not (in-package ...): in a file with several packages the exported names are looked up without their package", true))
 				}
@@ -1530,7 +1534,8 @@ func init() {
 				rs := st.(*ast.RangeStmt)
 				fileLoops = append(fileLoops, rs)
 				preserves := false
-				for _, ce := range callsIn(rs.Body, false) {
+				// (callbacks handed to an internal iterator inside the loop run inside the loop)
+				for _, ce := range callsIn(rs.Body, true) {
 					if f := originOf(Callee(info, ce)); f == p1 || f == p2 {
 						preserves = true
 					}
@@ -1603,6 +1608,23 @@ func init() {
 					if d := soleDef(info, fd.Body, id); d != nil {
 						if fl, ok := ast.Unparen(d).(*ast.FuncLit); ok {
 							phase2 = append(phase2, region{info: info, root: fl.Body})
+						}
+					}
+				}
+				return true
+			})
+			// a function literal handed to an internal iterator inside the loop (`forEachTopLevelForm(exprs, func(…) {…})`)
+			// runs in the decision phase as well, and so do the helpers it calls
+			ast.Inspect(decision.Body, func(n ast.Node) bool {
+				ce, ok := n.(*ast.CallExpr)
+				if !ok {
+					return true
+				}
+				for _, a := range ce.Args {
+					if fl, ok := ast.Unparen(a).(*ast.FuncLit); ok {
+						phase2 = append(phase2, region{info: info, root: fl.Body})
+						for _, hu := range helpersIn(fl.Body, info, 0, map[*types.Func]bool{}) {
+							phase2 = append(phase2, region{info: hu.u.Pkg.TypesInfo, root: hu.u.Decl.Body})
 						}
 					}
 				}
@@ -2086,4 +2108,30 @@ func init() {
 			}
 			return obs
 		}})
+}
+
+// comparesWithString: u compares something (==, !=, case) with the string constant s.
+func (c *Ctx) comparesWithString(u FuncUnit, s string) bool {
+	info := u.Pkg.TypesInfo
+	hit := false
+	is := func(e ast.Expr) {
+		if v, ok := constStringVal(info, e); ok && v == s {
+			hit = true
+		}
+	}
+	ast.Inspect(u.Decl.Body, func(n ast.Node) bool {
+		switch x := n.(type) {
+		case *ast.BinaryExpr:
+			if x.Op == token.EQL || x.Op == token.NEQ {
+				is(x.X)
+				is(x.Y)
+			}
+		case *ast.CaseClause:
+			for _, e := range x.List {
+				is(e)
+			}
+		}
+		return !hit
+	})
+	return hit
 }
